@@ -62,7 +62,7 @@ theorem Sched.yield_deprioritised :
 /-! ## 2. yielded threads are re-activated -/
 
 /-- `Sched.yield_reactivated`: the last loop of `schedule` sets every thread that is in `yield`
-state and is not the chosen thread `nid` back to `runnable false` and leaves all other threads
+state and is not the chosen thread `nid` back to `runnable` and leaves all other threads
 alone; the chosen thread keeps its state (only its DPOR clock may change).  Hence after
 `schedule` no thread other than the chosen one is in `yield` state. -/
 theorem Sched.yield_reactivated {e e' : Exec} {pk b : Bool} {nid : Nat}
